@@ -114,7 +114,7 @@ AsiCons == {C0("id"), C0("expr"), CN("blk", 1), CN("blk", 2), C0("if"), C0("ife"
             CN("sw", 1), CN("case", 2), CO("label", "L"), CO("brk", ""), CO("brk", "L"), CO("cont", ""),
             C0("ret0"), C0("ret"), C0("throw"), C0("dbg"), C0("bid"), C0("dc"), C0("dci"), CN("ps", 0), CO("for", "---"),
             CON("var", "let", 1), CO("fdecl", ""),
-            CO("pre", "++"), CO("post", "--"), CN("call", 0), C0("grp"), C0("yield0"), CO("un", "!"), CO("un", "-"), CO("lit", "'s'"), CO("lit", "/r/"), CO("lit", "`t`"),
+            CO("pre", "++"), CO("pre", "--"), CO("post", "--"), CO("post", "++"), CN("call", 0), C0("grp"), C0("yield0"), CO("un", "!"), CO("un", "-"), CO("lit", "'s'"), CO("lit", "/r/"), CO("lit", "`t`"),
             CN("arr", 0), CO("arrow", ""), C0("psid")}
 \* bindings and parameter lists
 BindCons == {C0("id"), C0("expr"), C0("bid"), C0("bdef"), CN("barr", 0), CN("barr", 1), CN("barr", 2), CON("barr", "h1", 1), CON("barr", "r", 1),
